@@ -270,11 +270,13 @@ impl Peer {
                 if !ids.is_empty() {
                     return None;
                 }
+                // an id the endpoint has never used
+                let pid = 0x7009;
                 match plan.deviation_at % 4 {
-                    0 => Pkt::PubAck(Ack::ok(9)),
-                    1 => Pkt::PubRec(Ack::ok(9)),
-                    2 => Pkt::PubComp(Ack::ok(9)),
-                    _ => Pkt::SubAck(SubAck { pid: 9, props: Vec::new(), codes: vec![0] }),
+                    0 => Pkt::PubAck(Ack::ok(pid)),
+                    1 => Pkt::PubRec(Ack::ok(pid)),
+                    2 => Pkt::PubComp(Ack::ok(pid)),
+                    _ => Pkt::SubAck(SubAck { pid, props: Vec::new(), codes: vec![0] }),
                 }
             }
         };
